@@ -15,12 +15,24 @@ from .common import LABELS, MAB, Scenario, ask, gen_batch, new_mab, outputs_equa
 from .c03 import fresh_lp, results_equal
 
 
-def clusters(env, lp, k, mini, N, partial, d=1, A=2, add_arm=False, twin=False):
+def earlier_life(env, mab, arms, lp, d, n):
+    """a previous training round on the bandit itself (every arm observed) followed by queries answered by the bandit
+    itself: whatever those leave behind must not survive the fit that follows"""
+    de, re_, ce = gen_batch(env, 'e', arms, n, reward_kind(lp), d=d, fixed_n=n, fixed_dec=True)
+    mab.fit(np.asarray(de), re_, ce)
+    q0 = env.reals('q0', (1, d))
+    ask(mab, 'expectations', q0)
+    ask(mab, 'predict', q0)
+
+
+def clusters(env, lp, k, mini, N, partial, d=1, A=2, add_arm=False, twin=False, refit=False):
     arms = list(LABELS['int'][:A])
     n = N + partial
     dec, rew, ctx = gen_batch(env, 'h', arms, n, reward_kind(lp), d=d, fixed_n=n)
     dec = np.asarray(dec)
     mab, hp = new_mab(env, arms, lp, 'clusters:%d%s' % (k, ':mini' if mini else ''))
+    if refit:
+        earlier_life(env, mab, arms, lp, d, max(2, k))
     mab.fit(dec[:N], rew[:N], ctx[:N])
     if add_arm:
         new = LABELS['int'][A]
@@ -56,12 +68,14 @@ def clusters(env, lp, k, mini, N, partial, d=1, A=2, add_arm=False, twin=False):
         env.ob('twin.false', False)
 
 
-def tree(env, lp, N, partial, d=1, A=2, add_arm=False, L=2, twin=False):
+def tree(env, lp, N, partial, d=1, A=2, add_arm=False, L=2, twin=False, refit=False):
     arms = list(LABELS['int'][:A])
     n = N + partial
     pool = list(arms) + ([LABELS['int'][A]] if add_arm else [])
     dec0, rew0, ctx0 = gen_batch(env, 'f', arms, N, reward_kind(lp), d=d, fixed_n=N)
     mab, hp = new_mab(env, arms, lp, 'tree')
+    if refit:
+        earlier_life(env, mab, arms, lp, d, 2)
     mab.fit(np.asarray(dec0), rew0, ctx0)
     dec, rew, ctx = list(dec0), list(rew0), [ctx0[i] for i in range(N)]
     if add_arm:
@@ -147,6 +161,14 @@ def scenarios(tier):
         if not q:
             out.append(Scenario('tree.%s.L3.d2' % lp, tree, dict(lp=lp, N=3, partial=1, d=2), setup=dict(tree_leaves=3),
                                 weight=900, shards=8, max_paths=200000))
+    # refit after an earlier life (fit + queries on the bandit itself): an arm the new data omit is back to 0
+    for lp in (['greedy0', 'ucb1'] if q else ['greedy0', 'ucb1', 'thompson']):
+        out.append(Scenario('tree.%s.refit_after_queries' % lp, tree, dict(lp=lp, N=2, partial=0 if q else 1, refit=True),
+                            setup=dict(tree_leaves=2), weight=500, shards=6, max_paths=100000,
+                            bounds=dict(lp=lp, history='fit(2 rows) + 2 queries + fit(2 rows)', leaves=2)))
+    out.append(Scenario('clusters.ucb1.refit_after_queries', clusters, dict(lp='ucb1', k=2, mini=False, N=2, partial=0 if q else 1,
+                                                                          refit=True), weight=500, shards=6, max_paths=100000,
+                        bounds=dict(lp='ucb1', k=2, history='fit(2 rows) + 2 queries + fit(2 rows)')))
     out.append(Scenario('twin.clusters', clusters, dict(lp='ucb1', k=2, mini=False, N=2, partial=0, twin=True), twin=True))
     out.append(Scenario('twin.tree', tree, dict(lp='ucb1', N=2, partial=0, twin=True), twin=True))
     return out
